@@ -214,10 +214,13 @@ func RunPlan(run *ev.Run, plan Plan, replay string) {
 			ReplayAll(run, plan, traces, f)
 		}
 	}
-	for _, ac := range plan.Alls {
+	for _, ac := range onlyAll(plan.Alls) {
 		if !runAll(run, plan, ac) {
 			return
 		}
+	}
+	if os.Getenv("VERIF_ONLY_ALL") != "" {
+		return
 	}
 	seed := ev.Seed()
 	shard, nshards := ev.Shard()
@@ -246,8 +249,18 @@ func RunPlan(run *ev.Run, plan Plan, replay string) {
 	run.Add("states_visited_in_simulation", simStates)
 }
 
+// onlyAll: development aid - VERIF_ONLY_ALL=<cfg file> replays that bounded-exhaustive configuration completely
+// and nothing else.
+func onlyAll(alls []AllCfg) []AllCfg {
+	if f := os.Getenv("VERIF_ONLY_ALL"); f != "" {
+		return []AllCfg{{File: f, EndOnly: true}}
+	}
+	return alls
+}
+
 // PrepareAlls runs the bounded-exhaustive TLC enumerations once (parent process) and stores the behaviours in dir.
 func PrepareAlls(alls []AllCfg, dir string) error {
+	alls = onlyAll(alls)
 	for _, ac := range alls {
 		to := ac.Timeout
 		if to == 0 {
